@@ -50,6 +50,17 @@ def run(tier, out):
     wd = work_dir("c10")
     try:
         tlc.stage_specs(wd)
+        laws = ("AddIsUnitSafe", "MulIsUnitSafe", "MaxAwareIsUnitSafe", "MaxRawRightInSameUnit", "CeilRightOnCounts")
+        resm = tlc.run_tlc(wd, "MC_Units", "SPECIFICATION Spec\n" + "".join(f"INVARIANT {x}\n" for x in laws), workers=8, timeout=900)
+        tlc.require_clean(resm, "MC_Units")
+        out.add_tlc(resm, "MC_Units: unit-aware operators ignore how an operand is written; the bare-magnitude helpers are "
+                          "right under their precondition", exhaustive=resm.completed)
+        if resm.error:
+            out.violation("model:" + resm.error, {"tlc_output_tail": resm.out[-3000:]})
+        # the precondition is needed: without it TLC must find operands for which the bare-magnitude maximum is wrong
+        resw = tlc.run_tlc(wd, "MC_Units", "SPECIFICATION Spec\nINVARIANT MaxRawAlwaysRight\n", workers=8, timeout=900)
+        if not (resw.error and "MaxRawAlwaysRight" in resw.out):
+            raise MachineryError("MC_Units did not produce the expected counterexample for MaxRawAlwaysRight")
         ns = efx.load()
         base = seed_from_env() * 100000
         n_models = 5 if tier == "quick" else 20
